@@ -63,6 +63,7 @@ def strata(tier):
     yield 'verbatim', verbatim
     yield 'const', constants
     yield 'S1', programs.s1
+    yield 'SL', programs.sl
     yield 'S2', programs.s2
     yield 'S3', (lambda: programs.s3(4)) if tier == 'quick' else (lambda: programs.s3(5))
     yield 'S4', (lambda: programs.s4(8)) if tier == 'quick' else (lambda: programs.s4(None))
@@ -130,7 +131,7 @@ def check_program(p):
             if reads is not None and reads - got:
                 out.append(('read-without-edge', sorted(got), sorted(reads), 'the generated code of %s reads a cell that has no edge into it' % y))
             elif reads is not None and got - reads:
-                if any(isinstance(l, programs.Lit) for l in e.leaves) or re.search(r'\b(and|or|if|not)\b', e.ctx):
+                if any(isinstance(l, programs.Lit) for l in e.leaves) or re.search(r'\b(and|or|if|not)\b', e.ctx) or re.search(r'[\])]\[\d\]', e.ctx):   # (a constant subscript of a tuple/list display selects one operand: the others are dead)
                     # 'Y = 2 or X', 'Y = exp(not X) or {a}': an operand that is truthy/falsy for ALL data short-circuits - the term is dead code
                     dead_by_constant[0] += 1
                 else:
@@ -167,6 +168,12 @@ SPECIAL_EXPECT = [
     ('(A, B) = (X[-1] + {a} * Z, X[-1] - {a} * Z)', {'A[t]': {'X[t-1]', 'a[t]', 'Z[t]'}, 'B[t]': {'X[t-1]', 'a[t]', 'Z[t]'}}),
     ('(A, B[1]) = (X, <e>[-12])\nC = A[-10] + B', {'A[t]': {'X[t]', 'e[t-12]'}, 'B[t+1]': {'X[t]', 'e[t-12]'}, 'C[t]': {'A[t-10]', 'B[t]'}}),
     ('Y = X[-12] + X[12] + Z[-100]', {'Y[t]': {'X[t-12]', 'X[t+12]', 'Z[t-100]'}}),
+    # series whose names begin with (or contain) the name of a function or keyword used in the same model
+    ('NX = exports - imports + exp(rate) * log(income)\nincome = inflation if orders > 0 else notX and ifs',
+     {'NX[t]': {'exports[t]', 'imports[t]', 'rate[t]', 'income[t]'}, 'income[t]': {'inflation[t]', 'orders[t]', 'notX[t]', 'ifs[t]'}}),
+    ('Y = max(maxi, min_[-1]) + abs(absorption) + np.log(np_x) + log10x', {'Y[t]': {'maxi[t]', 'min_[t-1]', 'absorption[t]', 'np_x[t]', 'log10x[t]'}}),
+    # a long equation (its normalised text is far longer than a line): the node carries all of it
+    ('C = ' + ' + '.join('{a%d} * YD%d[-%d]' % (i, i, i % 3 + 1) for i in range(12)), {'C[t]': {'a%d[t]' % i for i in range(12)} | {'YD%d[t-%d]' % (i, i % 3 + 1) for i in range(12)}}),
 ]
 
 
@@ -180,8 +187,8 @@ def run_special(case):
         got = {u for u, _ in G.in_edges(y) if VARLIKE.match(u)} if y in G.nodes else None
         if got != want:
             out.append(('special:edges', sorted(want), sorted(got) if got is not None else None, 'in-edges of %s in %r' % (y, script)))
-        elif not G.nodes[y].get('equation'):
-            out.append(('special:node-equation', 'the normalised equation', G.nodes[y].get('equation'), 'node %s of %r carries no equation' % (y, script)))
+        elif G.nodes[y].get('equation') not in [x.equation for x in symbols if x.equation]:
+            out.append(('special:node-equation', 'the normalised equation', G.nodes[y].get('equation'), 'node %s of %r does not carry its normalised equation' % (y, script)))
     return out
 
 
@@ -205,7 +212,7 @@ class GraphNotFresh(Exception):
 def blocks(tier, seed):
     out = [{'special': True}]
     for name, _ in strata(tier):
-        nb = {'verbatim': 1, 'const': 1, 'S1': 8, 'S2': 16, 'S3': 16 if tier == 'quick' else 96, 'S4': 24 if tier == 'quick' else 64}[name]
+        nb = {'verbatim': 1, 'const': 1, 'SL': 2, 'S1': 8, 'S2': 16, 'S3': 16 if tier == 'quick' else 96, 'S4': 24 if tier == 'quick' else 64}[name]
         for b in range(nb):
             out.append({'stratum': name, 'b': b, 'nb': nb})
     return out
